@@ -23,7 +23,7 @@ Definition allowed (kind side dgram_buf : Z) : list Z :=
   if kind =? 11 then [10] else
   if (kind =? 12) || (kind =? 13) then (if side =? 0 then [10] else []) else
   if kind =? 14 then (if side =? 0 then [7; 10] else [7]) else
-  if kind =? 15 then [13] else
+  if (kind =? 15) || (kind =? 29) then [13] else
   if kind =? 16 then (if (dgram_buf <? 300) then [10] else []) else
   if (kind =? 17) || (kind =? 18) || (kind =? 24) || (kind =? 26) || (kind =? 27) then [7] else
   if (kind =? 19) || (kind =? 20) then [6] else
